@@ -79,9 +79,28 @@ UNITS = [
 """),
 ]
 
+UNITS += [
+    # listing with sizes: the closure deciding, per directory entry of the walk, whether and how it is reported
+    Unit(name="local_list_entry", file=LB, kind="block", within="fn list_with_size(&self, tpe: FileType) -> RusticResult<Vec<(Id, u32)>>",
+         anchor="@closure:.filter_map(|r|",
+         block_sig="fn local_list_entry(r: Result<DirEntryL, WalkErr>, tpe: FileType) -> (res: Option<(Id, u32)>)",
+         block_tail="",
+         functions=["<rustic_backend::local::LocalBackend as ReadBackend>::list_with_size (per-entry closure of the directory walk)"],
+         rewrites=[Rw(r"r\s*\.inspect_err\(\|err\| error!\([^;]*?\)\)\s*\.ok\(\)\?", "vok_entry(r)?", regex=True, why="Result::inspect_err(log).ok() -> proved helper"),
+                   Rw("entry.file_name().to_string_lossy()", "entry.vfile_name()", why="OsStr -> str conversion of the entry's name -> stub"),
+         ],
+         contract="""
+    ensures
+        // reported: only regular files whose NAME is an id (temporary and foreign names are not), under that id, with the true size
+        /*@only_regular_files_named_by_an_id_are_listed_with_their_size*/ res matches Some(x) ==> r matches Ok(e) && e.is_file && NAME_ID(e.name) == Some(x.0) && x.1 == e.len@,
+        // and every such file IS reported (if its metadata can be read and its size fits the u32 the interface has)
+        /*@every_such_file_is_listed*/ r matches Ok(e) && e.is_file && NAME_ID(e.name) is Some && e.meta_ok@ && e.len@ <= u32::MAX ==> res is Some,
+"""),
+]
+
 KANI = []
 META = {"not_covered": [
-    "listings (LocalBackend::list / list_with_size: walkdir iterator chains, which names are accepted, sizes) -- the claim 'listings report exactly the files written, ignoring foreign or temporary files' is NOT decided",
+    "listings: the directory walk itself (walkdir: every file of the type's directory is yielded once), LocalBackend::list, the Config special case and the name parser Id::from_str (which names are ids: uninterpreted) are NOT decided; the per-entry closure of list_with_size IS a unit (regular files named by an id, with their true size; the nested helper `length` elided)",
     "the path building itself (base_path / filename / path: PathBuf joins, hex strings): stubs naming the file of a (type, id); Config files ignore the id",
     "the nested helper write_local_file (create/truncate/set_len/copy/sync_all) is elided: assumed to write the whole content or fail leaving anything under THAT name; fs::rename assumed atomic (POSIX); crash behaviour of the file system itself",
     "the generic object-store adapter (opendal.rs), rclone and rest backends; the in-memory test backend",
